@@ -6,6 +6,7 @@
 -/
 import PopsModel.Driver.Util
 import PopsModel.Model.RasterPred
+import PopsModel.Model.RasterF31
 namespace Pops.Driver.RasterEng
 open Pops Pops.Driver
 
@@ -16,6 +17,9 @@ structure State where
   n : Nat := 0                    -- number of variables of the pool
   pre : Obs Int := ⟨[], []⟩       -- last observation of the implementation
   sync : Bool := false            -- model state follows the implementation
+  /-- F31: variables that were the target of an assignment while they did not own their storage, with
+      the caller array they wrapped at that moment; kept until the variable is destroyed or moved from. -/
+  hit : List (Nat × Nat) := []
 
 instance : Inhabited State := ⟨{}⟩
 
@@ -63,7 +67,19 @@ def tyD : Ty Rat := ⟨rasterD?, parseRat?, showRD, inferInstance⟩
   determine the observed value completely, so the MISMATCH branches below are reachable only (a) for the exception
   CLASS of a rejected operation (the property says "rejected"), (b) where the property leaves the outcome open
   (`expectAfter = none`: copy assignment to a wrapper beyond `relaxedCopyAssign`, writes through an object without
-  data), (c) outside the caller contract of the heap model, or (d) if the model itself were wrong. -/
+  data), (c) outside the caller contract of the heap model, or (d) if the model itself were wrong.
+
+  Finding F31 (open): an assignment INTO a raster that does not own its storage (`Heap.f31Region`, evaluated on the
+  state before the operation) detaches it from the caller's array; a copy assignment also leaves it with a buffer
+  nobody releases. The sentence of the property - "a raster wrapping caller-owned memory writes through to it and
+  never frees it", over every sequence of copy, move and assignment - is evaluated on the OBSERVED values: after
+  such an assignment, and after every later store through that variable or by the caller, what the variable shows
+  must be what the caller's array holds (`showsArray`), and the storage a variable gives up must be released
+  exactly once unless it is the caller's (`st:` token of the harness, from the allocator's own books). Failures
+  are `KNOWN C19 F31` when the operation is in the region or the variable judged has been the target of such an
+  assignment (`State.hit`) / holds a buffer only such an assignment produces (`Heap.orphan`); anywhere else they
+  are `PROPFAIL C19 wrap-never-frees | storage-released`. A KNOWN line is printed only when the model agrees with
+  the observation (otherwise the MISMATCH is printed). -/
 
 /-- `raster.rs`, `raster.sr`, `raster.pow`, `raster.sqrt`: result `r`, operand re-read as `a'`. -/
 def checkMap {α : Type} (ta : Ty α) (what : String) (spec : α → α) (model : Raster α)
@@ -494,6 +510,101 @@ def relaxedCopyAssign (h : Heap Int) (pre post : Obs Int) (s t : Nat) : Option S
     let badE := (List.range pre.exts.length).filter fun x => some x != e && post.exts[x]? != pre.exts[x]?
     if bad.isEmpty && badE.isEmpty then none else some s!"unrelated-changed vars={bad} arrays={badE}"
 
+/-! ### F31: storage given up, write-through of assigned-to wrappers -/
+
+/-- Where a data pointer points, as printed by the harness. -/
+inductive PCls where
+  | null | ext (e : Nat) | heap
+deriving DecidableEq, Repr
+
+def PCls.show : PCls → String
+  | .null => "null" | .ext e => s!"ext{e}" | .heap => "heap"
+
+/-- `st:<null|ext<e>|heap>:<kept|freed|na>` -> pointer class, `some true` = released. -/
+def storTok? (tok : String) : Option (PCls × Option Bool) :=
+  match tok.splitOn ":" with
+  | ["st", c, r] => do
+    let c ← if c = "null" then some PCls.null else if c = "heap" then some PCls.heap
+            else if c.startsWith "ext" then (parseNat? (c.drop 3).toString).map PCls.ext else none
+    let r ← if r = "kept" then some (some false) else if r = "freed" then some (some true)
+            else if r = "na" then some none else none
+    some (c, r)
+  | _ => none
+
+def showStor : PCls × Option Bool → String
+  | (c, r) => s!"st:{c.show}:" ++ (match r with | some true => "freed" | some false => "kept" | none => "na")
+
+/-- The variable whose storage an operation gives up (`delete[]`s or drops), if any. -/
+def givesUp : HOp Int → Option Nat
+  | .destroy s => some s
+  | .copyAssign s t | .moveAssign s t => if s = t then none else some s
+  | _ => none
+
+/-- The variable named first by an assignment / destruction (the one the `st:` token is about). -/
+def storVar : HOp Int → Option Nat
+  | .destroy s | .copyAssign s _ | .moveAssign s _ => some s
+  | _ => none
+
+/-- The model's `st:` token for `op` in state `h`. -/
+def modelStor (h : Heap Int) (op : HOp Int) : Option (PCls × Option Bool) :=
+  match storVar op with
+  | none => none
+  | some s =>
+    match h.slots s with
+    | none => none
+    | some o =>
+      match o.data with
+      | none => some (.null, none)
+      | some p => some (if p < h.nExt then .ext p else .heap, some ((givesUp op).isSome && o.owns))
+
+/-- "Writes through": what variable `s` shows is what the caller's array `e` holds. A variable with a
+    null data pointer shows nothing. -/
+def showsArray (post : Obs Int) (s e : Nat) : Bool :=
+  match Obs.raster post s, post.exts[e]? with
+  | some a, some cells => a.cells == cells.take a.cells.length
+  | some _, none => false
+  | none, _ => true
+
+def hitOf (hit : List (Nat × Nat)) (s : Nat) : Option Nat := (hit.find? fun p => p.1 == s).map (·.2)
+
+/-- Property verdict about the storage given up: `(inside F31, detail)`. -/
+def storageVerdict (h : Heap Int) (cmd : String) (op : HOp Int) (stor : Option (PCls × Option Bool)) :
+    Option (Bool × String) :=
+  match stor, storVar op with
+  | some (.ext e, some true), some s =>
+    some (false, s!"wrap-never-frees {cmd} caller array {e} released through variable {s}")
+  | some (.heap, some false), some s =>
+    if (givesUp op).isNone then none           -- self-assignment: nothing is given up
+    else if h.orphan s then
+      some (true, s!"{cmd} the buffer held by variable {s}, allocated by a copy assignment into a raster that did not own its storage, is never released")
+    else some (false, s!"storage-released {cmd} the storage variable {s} gives up is still allocated")
+  | some (.heap, some true), some s =>
+    if (givesUp op).isNone then some (false, s!"storage-released {cmd} self-assignment released the storage of variable {s}")
+    else none
+  | _, _ => none
+
+/-- `hit` after the operation, and the `(variable, caller array)` pairs to judge with `showsArray`. -/
+def f31Track (h : Heap Int) (hit : List (Nat × Nat)) (op : HOp Int) (stor : Option (PCls × Option Bool)) (threw : Bool) :
+    List (Nat × Nat) × List (Nat × Nat) :=
+  let without (u : Nat) (l : List (Nat × Nat)) := l.filter fun p => p.1 != u
+  match op with
+  | .copyAssign s t | .moveAssign s t =>
+    if s = t then (hit, [])
+    else
+      let hit0 := match op with | .moveAssign .. => without t hit | _ => hit
+      match hitOf hit0 s with
+      | some e => (hit0, [(s, e)])
+      | none =>
+        match h.f31Region op, stor with
+        | true, some (.ext e, _) => ((s, e) :: hit0, [(s, e)])
+        | _, _ => (hit0, [])
+  | .moveCtor _ t => (without t hit, [])
+  | .destroy s => (without s hit, [])
+  | .write s _ _ _ | .mapInPlace s _ => (hit, (hitOf hit s).toList.map fun e => (s, e))
+  | .zipInPlace s _ _ => (hit, if threw then [] else (hitOf hit s).toList.map fun e => (s, e))
+  | .extWrite e _ _ => (hit, hit.filter fun p => p.2 == e)
+  | _ => (hit, [])
+
 /-- `len cell... len cell...` -/
 def initArrays? : Nat → List String → Option (List (List Int))
   | _, [] => some []
@@ -514,7 +625,7 @@ def handleHeap (st : State) (cmd : String) (inp obs : List String) : State × St
         match obs? n obs with
         | some o =>
           let h := Heap.init exts
-          let st' : State := { heap := h, n := n, pre := o, sync := true }
+          let st' : State := { heap := h, n := n, pre := o, sync := true, hit := [] }
           -- the harness's own initial state (no library operation yet)
           (st', if h.observe n = o then "ok" else s!"MISMATCH raster.h.init model={showObs (h.observe n)}")
         | none => ({ st with sync := false }, "BADLINE")
@@ -525,6 +636,11 @@ def handleHeap (st : State) (cmd : String) (inp obs : List String) : State × St
     match hop? cmd inp with
     | none => ({ st with sync := false }, "BADLINE")
     | some op =>
+      -- `st:` token of the assignments and destructions (absent in older recordings)
+      let (stor?, obs) : Option (Option (PCls × Option Bool)) × List String :=
+        match obs with
+        | tok :: rest => if tok.startsWith "st:" then ((storTok? tok).map some, rest) else (some none, obs)
+        | [] => (some none, obs)
       -- status token of the throwing commands
       let (threw?, obsToks) : Option Bool × List String :=
         match op, obs with
@@ -532,8 +648,8 @@ def handleHeap (st : State) (cmd : String) (inp obs : List String) : State × St
         | .zipInPlace .., tok :: rest | .zipNew .., tok :: rest =>
           if tok.startsWith "err:" then (some true, rest) else (none, obs)
         | _, _ => (some false, obs)
-      match threw?, obs? st.n obsToks with
-      | some threw, some post =>
+      match threw?, stor?, obs? st.n obsToks with
+      | some threw, some stor, some post =>
         let h := st.heap
         if !(h.inScope op) then ({ st with sync := false }, s!"MISMATCH {cmd} outside-the-model's-caller-contract")
         else
@@ -542,7 +658,8 @@ def handleHeap (st : State) (cmd : String) (inp obs : List String) : State × St
           | .ok h' =>
             let (clause, expected, expThrow) := expectAfter h st.pre op (specOfCmd cmd inp)
             let modelObs := h'.observe st.n
-            let st' : State := { st with heap := h', pre := post, sync := post = modelObs }
+            let (hit', judge) := f31Track h st.hit op stor threw
+            let st' : State := { st with heap := h', pre := post, sync := post = modelObs, hit := hit' }
             -- 1. property predicates on the implementation's own observations
             let prop : Option String :=
               if expThrow && !threw then some s!"shape-mismatch-not-rejected {cmd}"
@@ -565,15 +682,41 @@ def handleHeap (st : State) (cmd : String) (inp obs : List String) : State × St
                   match op with
                   | .copyAssign s t => (relaxedCopyAssign h st.pre post s t).map fun d => s!"copy-independent {cmd} {d}"
                   | _ => none
+            -- 1b. storage given up and write-through of assigned-to wrappers (F31 inside its region)
+            let sv := storageVerdict h cmd op stor
+            let detached := judge.filter fun p => !(showsArray post p.1 p.2)
+            let known : List String :=
+              (match sv with | some (true, d) => [d] | _ => []) ++
+              detached.map fun p =>
+                match op with
+                | .copyAssign .. | .moveAssign .. =>
+                  s!"{cmd} variable {p.1} wraps caller array {p.2}; after the assignment the array does not hold what the variable shows"
+                | .extWrite .. => s!"{cmd} the caller's write to array {p.2} is not seen through variable {p.1} (assigned to earlier)"
+                | _ => s!"{cmd} the store through variable {p.1} (assigned to earlier) is not visible in caller array {p.2}"
+            let prop : Option String := match prop, sv with
+              | some d, _ => some d
+              | none, some (false, d) => some d
+              | none, _ => none
             match prop with
             | some d => ({ st' with sync := false }, "PROPFAIL C19 " ++ d)
             | none =>
               -- 2. model against implementation (cases (b) - (d) of the audit note at the top)
               let modelThrew := (h.throws op).isSome
+              let mstor := modelStor h op
+              let storAgrees : Bool := match stor, mstor with
+                | some (c, some r), some (mc, some mr) => c == mc && r == mr
+                | some (c, none), some (mc, _) => c == mc          -- no allocator books: pointer class only
+                | some (_, some _), some (_, none) => false
+                | some _, none => false
+                | none, _ => true
               if modelThrew != threw then ({ st' with sync := false }, s!"MISMATCH {cmd} model-throws={modelThrew}")
               else if post ≠ modelObs then ({ st' with sync := false }, s!"MISMATCH {cmd} model={showObs modelObs}")
+              else if !storAgrees then
+                ({ st' with sync := false }, s!"MISMATCH {cmd} storage model={(mstor.map showStor).getD "-"}")
+              else if !known.isEmpty then
+                (st', "KNOWN C19 F31 assignment into a raster that wraps caller memory: " ++ "; ".intercalate known)
               else (st', "ok")
-      | _, _ => ({ st with sync := false }, "BADLINE")
+      | _, _, _ => ({ st with sync := false }, "BADLINE")
 
 def handle (st : State) (cmd : String) (inp obs : List String) : State × String :=
   if cmd.startsWith "raster.h." then handleHeap st cmd inp obs
